@@ -37,12 +37,16 @@ func junoGoroutines(inBubble bool) []string {
 	buf := make([]byte, 4<<20)
 	n := runtime.Stack(buf, true)
 	var res []string
+	mine := "" // "synctest bubble N" of the caller: goroutines leaked by an EARLIER bubble are not ours
 	for i, g := range strings.Split(string(buf[:n]), "\n\n") {
+		head := strings.SplitN(g, "\n", 2)[0]
 		if i == 0 { // the calling goroutine
+			if k := strings.Index(head, "synctest bubble "); k >= 0 {
+				mine = strings.TrimRight(head[k:], "]:")
+			}
 			continue
 		}
-		head := strings.SplitN(g, "\n", 2)[0]
-		if inBubble && !strings.Contains(head, "synctest bubble") {
+		if inBubble && (mine == "" || !strings.Contains(head, mine+"]")) {
 			continue
 		}
 		if strings.Contains(g, junoPkg) {
